@@ -494,6 +494,7 @@ class RefSim:
         self.on_exec = None
         self.on_warmup = None
         self.executed_faults = 0
+        self.strategy = None      # current error strategy (1, 2, 3) when the program may change it at run time
 
     # -- scheduling
     def _legal_time(self, t):
@@ -613,7 +614,7 @@ class RefSim:
             r = self._exec(e)
             if e[4] != "W":
                 n += 1                      # max_events counts model events only
-            if r == "fault" and pause_on_fault:
+            if r == "fault" and (pause_on_fault if self.strategy is None else self.strategy == 3):
                 return "fault"
             if max_events is not None and n >= max_events:
                 return "count"
